@@ -74,6 +74,18 @@ func main() {
 		fmt.Println(n, "role-carrying assignments")
 		return
 	}
+	if *dumpfn == "CTX" {
+		w := loadWorld(*repo)
+		cnt := map[string]int{}
+		for _, h := range ctxHandOvers(w.RepoFuncs("compose", "schema", "internal", "flow", "callbacks", "components", "utils")) {
+			cnt[h.kind]++
+			if h.kind != "param" && h.kind != "captured-per-call" {
+				fmt.Printf("%s | %s | %s | %s\n", h.kind, w.fname(origin(h.fn)), valText(h.arg), w.pos(h.call.Pos()))
+			}
+		}
+		fmt.Println(cnt)
+		return
+	}
 	if *dumpfn == "LIST" {
 		w := loadWorld(*repo)
 		for _, f := range w.RepoFuncs() {
